@@ -15,12 +15,21 @@ TRUSTED_BASE = [
 
 
 def load_findings():
-    p = os.path.join(ROOT, "known_findings.json")
-    try:
-        with open(p) as fh:
-            return json.load(fh)
-    except FileNotFoundError:
-        return {"findings": [], "fixed": []}
+    """known_findings.json plus per-property files findings/Cxx.json (same format); never written at run time"""
+    out = {"findings": [], "fixed": []}
+    paths = [os.path.join(ROOT, "known_findings.json")]
+    fdir = os.path.join(ROOT, "findings")
+    if os.path.isdir(fdir):
+        paths += [os.path.join(fdir, f) for f in sorted(os.listdir(fdir)) if f.endswith(".json")]
+    for p in paths:
+        try:
+            with open(p) as fh:
+                d = json.load(fh)
+            out["findings"] += d.get("findings", [])
+            out["fixed"] += d.get("fixed", [])
+        except FileNotFoundError:
+            pass
+    return out
 
 
 class Ctx:
